@@ -1024,6 +1024,9 @@ func main() {
 			"cache.evictNode", "cache.runTask", "cache.notifyDeletion", "cache.notifyAtomicDeletion", "cache.makeRetired", "cache.makeDead"},
 			[]string{"notifyDeletion", "notifyAtomicDeletion", "makeRetired", "makeDead", "deleteNodeFromMap", "afterDelete", "afterWriteTask", "getTask", "putTask",
 				"Compute", "delete", "Delete", "Add", "add", "update", "RecordEviction", "Retire", "Die", "executor", "onDeletion", "onAtomicDeletion"}},
+		// persistence: where the clock is read and what is done per entry (C19)
+		{ot, []string{"LoadCacheFrom", "SaveCacheTo"},
+			[]string{"NowNano", "Decode", "Encode", "Set", "SetExpiresAfter", "SetRefreshableAfter", "GetEntryQuietly", "GetIfPresent", "Coldest", "Hottest", "GetMaximum", "WeightedSize", "IsWeighted"}},
 		{qp, []string{"MPSC.TryPush", "MPSC.pushSlowPath", "MPSC.resize", "MPSC.TryPop", "MPSC.getNextBuffer", "MPSC.newBufferTryPush", "MPSC.newBufferAndOffset"}, nil},
 		{lp, []string{"ring.add", "ring.drainTo", "Striped.Add", "Striped.expandOrRetry", "Striped.DrainTo"}, nil},
 		{xs, []string{"Adder.Add", "Adder.Value"}, nil},
